@@ -101,6 +101,24 @@ extern int64_t cmb_resourceguard_wait(struct cmb_resourceguard *rgp,
                                       const void *ctx);
 
 /**
+ * @brief As `cmb_resourceguard_wait`, but queued as if waiting since the given
+ *        (earlier) time. For use by resource classes whose waiters may have
+ *        to get back in line after being let through.
+ *
+ * @memberof cmb_resourceguard
+ * @param rgp Pointer to a resource guard.
+ * @param demand Pointer to the demand predicate function.
+ * @param ctx The context argument to the demand predicate function.
+ * @param entry_time The time the process started waiting, not after now.
+ *
+ * @return The signal received when resumed.
+ */
+extern int64_t cmi_resourceguard_wait_since(struct cmb_resourceguard *rgp,
+                                            cmb_resourceguard_demand_func *demand,
+                                            const void *ctx,
+                                            double entry_time);
+
+/**
  * @brief  Ring the bell for a resource guard to check if any of the waiting
  *         processes should be resumed. Will evaluate the demand function for
  *         the first process in the queue, if any, and will resume it if
